@@ -552,8 +552,29 @@ def rule_n(R, ctx, rid="C17.n"):
     R.floor(rid, "loop exits of whole-collection renderings", n, 6)
 
 
+def rule_o(R, ctx, rid="C17.o"):
+    Y = ctx.yrs
+    R.rule(rid, "R-GUARD presence is decided by the count, not by the value: BlockIter::read_value (behind Array::get and the XML child "
+                "iterator) answers Some exactly where BlockIter::slice reported that it read an element — the `Some` is guarded by a "
+                "comparison of slice's result — and never by comparing the slot with a placeholder value (Out::default() is "
+                "Any::Undefined, a legal array element)")
+    fn = Y.fn("yrs::block_iter::BlockIter::read_value")
+    v = FnView(fn)
+    somes = [(i, st) for i, j, st in fn.stmts() if "agg" in st["rv"] and st["rv"]["agg"].get("variant") == "Some"
+             and str(st["rv"]["agg"].get("adt", "")).endswith("option::Option")]
+    R.floor(rid, "Some(..) answers of read_value", len(somes), 1)
+    for k, (i, st) in enumerate(somes):
+        g = v.guards(i)
+        by_count = [l for l in g if isinstance(l.term, tuple) and l.term[0] == "bin" and term_has_call(l.term, "yrs::block_iter::BlockIter::slice")]
+        by_value = [l for l in g if isinstance(l.term, tuple) and l.term[0] == "call" and re.search(r"PartialEq.*::(eq|ne)$", F.strip_generics(l.term[1]))]
+        R.ob(rid, fn, "present#%d" % k, bool(by_count) and not by_value,
+             "Some under %s" % by_count[0].desc[:100] if by_count and not by_value else
+             "Some is decided by %s — not by the count slice() returned" % ([l.desc[:100] for l in by_value] or [l.desc[:80] for l in g][-2:]))
+
+
 def check(ctx, R):
     from . import shared as _sh
+    R.run("C17.o", rule_o, ctx)
     R.run("C17.n", rule_n, ctx)
     R.run("C17.m", lambda R, c: _sh.api_delegations(
         R, c, "C17.m", _sh.READ_DELEGATIONS,
